@@ -95,8 +95,7 @@ package transform
 // makes of it for the field's type.
 // ---------------------------------------------------------------------------------------------
 
-//@ extern func parse.String(str, t) (v, err)
-//@   flag record parseString
+// parse.String: contract (with its call record parseString) in package parse
 
 //@ func transform.(*StringCastingMangler).Mangle(m, sf) (out, err)
 //@   props C10 C11
@@ -110,10 +109,12 @@ package transform
 //@   safety C16
 //@   requires len(vs) == 1 && valid(vs[0].Value) && canInterface(vs[0].Value) && vtype(vs[0].Value) == typeOfDyn(tid("*string"))
 //@   requires pointerified_field: sf.Type != nil && (kind(sf.Type) == Slice || kind(sf.Type) == Map || kind(sf.Type) == Ptr)
-//@   modifies rec_parseString
-//@   ensures C11_unset_stays_unset: visnil(vs[0].Value) ==> err == nil && valid(v) && vtype(v) == sf.Type && rec_parseString_cnt == old(rec_parseString_cnt)
-//@   ensures C11_set_value_is_parsed_for_the_field_type: !visnil(vs[0].Value) ==> rec_parseString_cnt == old(rec_parseString_cnt) + 1
-//@        && rec_parseString_arg0[old(rec_parseString_cnt)] == cell(vptr(vs[0].Value), "string")
+//@   requires C16_supported_leaf_types: (kind(sf.Type) == Slice ==> isBasicKind(kind(elem(sf.Type))) && kind(elem(sf.Type)) != Uintptr) && (kind(sf.Type) == Ptr ==> elem(sf.Type) != nil
+//@        && (kind(elem(sf.Type)) == Slice ==> isBasicKind(kind(elem(elem(sf.Type)))) && kind(elem(elem(sf.Type))) != Uintptr))
+//@   modifies rec_parseString, rec_parseNumber, rh
+//@   ensures C11_unset_stays_unset: old(visnil(vs[0].Value)) ==> err == nil && valid(v) && vtype(v) == sf.Type && rec_parseString_cnt == old(rec_parseString_cnt)
+//@   ensures C11_set_value_is_parsed_for_the_field_type: !old(visnil(vs[0].Value)) ==> rec_parseString_cnt == old(rec_parseString_cnt) + 1
+//@        && rec_parseString_arg0[old(rec_parseString_cnt)] == old(cell(vptr(vs[0].Value), "string"))
 //@        && rec_parseString_arg1[old(rec_parseString_cnt)] == ite(kind(sf.Type) == Slice || kind(sf.Type) == Map, sf.Type, elem(sf.Type))
 //@        && v == rec_parseString_res0[old(rec_parseString_cnt)] && err == rec_parseString_res1[old(rec_parseString_cnt)]
 
